@@ -9,4 +9,4 @@ Extraction "Model.ml"
   multidim_index_iterator3_current__ multidim_index_iterator2_current__
   actual_new actual_clear actual_set actual_get actual_indexOf actual_num ac_cells ac_dims as_arr
   shifted subbox accessor multislice repeater value_range value_range_old a_dims a_get a_num v3z v2z t3 t2
-  Z.add Z.mul Z.opp Z.div Z.modulo Z.of_nat Z.to_nat N.of_nat.
+  Z.add Z.sub Z.quot Z.mul Z.opp Z.div Z.modulo Z.of_nat Z.to_nat N.of_nat.
